@@ -222,4 +222,24 @@ theorem C02_char_classes : ∀ c : UInt8,
   apply forall_uint8_of_lt
   decide +kernel
 
+/-- the base64 alphabet of RFC 4648: value of a character, -2 for the padding '=', -1 for anything else -/
+def b64Spec (c : UInt8) : Int :=
+  if decide (0x41 ≤ c) && decide (c ≤ 0x5a) then (c.toNat : Int) - 0x41
+  else if decide (0x61 ≤ c) && decide (c ≤ 0x7a) then (c.toNat : Int) - 0x61 + 26
+  else if decide (0x30 ≤ c) && decide (c ≤ 0x39) then (c.toNat : Int) - 0x30 + 52
+  else if c == 0x2b then 62 else if c == 0x2f then 63 else if c == 0x3d then -2 else -1
+
+/-- **C02 (the credential decoder's alphabet is base64)**: the decoding table regenerated from htp_base64.c is RFC 4648's, for all 256 bytes
+    (the request methods the parser names are pinned likewise below) -/
+theorem C02_base64_table : ∀ c : UInt8, Htp.Parse.b64Single c = b64Spec c := by
+  apply forall_uint8_of_lt
+  decide +kernel
+
+theorem C02_method_table :
+    Htp.Parse.methodNumber (b!"GET") = 2 ∧ Htp.Parse.methodNumber (b!"PUT") = 3 ∧ Htp.Parse.methodNumber (b!"POST") = 4 ∧
+    Htp.Parse.methodNumber (b!"DELETE") = 5 ∧ Htp.Parse.methodNumber (b!"CONNECT") = 6 ∧ Htp.Parse.methodNumber (b!"OPTIONS") = 7 ∧
+    Htp.Parse.methodNumber (b!"TRACE") = 8 ∧ Htp.Parse.methodNumber (b!"PATCH") = 9 ∧ Htp.Parse.methodNumber (b!"HEAD") = 1 ∧
+    Htp.Parse.methodNumber (b!"get") = 0 ∧ Htp.Parse.methodNumber (b!"GETX") = 0 ∧ Htp.Gen.methodTableBytes.length = 28 ∧
+    Htp.Gen.M_GET = 2 ∧ Htp.Gen.M_HEAD = 1 ∧ Htp.Gen.M_PUT = 3 ∧ Htp.Gen.M_POST = 4 ∧ Htp.Gen.M_CONNECT = 6 := by decide
+
 end Htp.C02
